@@ -253,6 +253,12 @@ def _locality(ctx):
                                                               or "visits-every-token-entry" in o["key"]))
                    or (o["rule"] == "C06.e" and ("one-entry-per-bundle-member" in o["key"] or "token-lists-every-bundle-member" in o["key"])), "C15.e")
     ctx.floor("C15.e", n, 4, "shared revocation-effectiveness obligations (C06.c/e)")
+    # 'runs on the first of its triggers to fire' - and not before: a `despawn(e)` trigger fires only for a real despawn. The
+    # tracker component whose Drop reports the despawn is never removed from (or replaced on) a living entity, and reports
+    # exactly once (a spurious report spends the one-off reactor, which then misses the real despawn; shared with C08.c)
+    import c08 as _c08
+    nh = core.adopt(ctx, _c08, lambda o: o["rule"] == "C08.c" and any(k in o["key"] for k in ("never-removed-from-a-live-entity", "tracker-not-replaced", "sends-parent-once", "one-entity")), "C15.h")
+    ctx.floor("C15.h", nh, 3, "shared despawn-tracker obligations (C08.c)")
     # 'runs on the first of its triggers to fire': the system that applies the bundle registers every given trigger with
     # the handle prepared for this reactor (shared with C01.a)
     import c01
